@@ -43,6 +43,33 @@ Next ==
   \/ (Stale /\ \E ok \in B, dec \in Decisions : StaleTrialEval(ok, dec) /\ Same)
 Spec == Init /\ [][Next]_vars
 
+(* ---- termination of a fit (C04 budget, C08 "fit returns") at the design level ----
+   The optimizer's own steps, with the derivative calls of one Jacobian restricted to indices not
+   yet seen (the trace specification also admits repetitions).  Under weak fairness of these steps
+   every fit that was started returns: the evaluation budget bounds the trial steps, a Jacobian has
+   finitely many columns, and after a rejected last step one re-application precedes the return. *)
+OptStep ==
+  \/ (\E k \in pend, ok \in B : Deriv(k, ok) /\ Same)
+  \/ (nextAid < MaxTrials /\ nfev < Pat * (NP + 1) /\ \E ok \in B : TrialSet(nextAid, ok) /\ Fresh)
+  \/ (\E ok \in B : EvalAfterFailedSet(ok) /\ Same)
+  \/ (\E ok \in B, dec \in Decisions : TrialEval(ok, dec, FALSE) /\ Same)
+  \/ (\E ok \in B : ResetSet(acc, ok) /\ Same)
+  \/ (\E ok \in B : ResetEval(ok, FALSE) /\ Same)
+  \/ (LMTerminable /\ FitEndStep /\ Same)
+FitPhases == {"jac", "jacfailed", "trial", "eval", "setfailed", "mustend", "reseteval", "resetsetfailed", "end"}
+LiveNext ==
+  \/ (phase = "idle" /\ BuildStart(NP) /\ Same)
+  \/ (\E ok \in B : BuildSet(nextAid, ok) /\ Fresh)
+  \/ (\E ok \in B : BuildEval(ok) /\ Same)
+  \/ (BuildEnd /\ Same)
+  \/ (nextAid < MaxTrials /\ \E ok \in B : CSet(nextAid, ok) /\ Fresh)
+  \/ (\E ok \in B : CSetEval(ok, FALSE) /\ Same)
+  \/ (CSetEnd /\ Same)
+  \/ (phase \in {"built", "done"} /\ FitStart(Pat, FALSE, own # -1) /\ Same)
+  \/ OptStep
+LiveSpec == Init /\ [][LiveNext]_vars /\ WF_vars(OptStep)
+FitTerminates == (phase \in FitPhases) ~> (phase = "done")
+
 \* C04: a fit that ends without any failure leaves the accepted parameters in the model,
 \* with the cache computed for them
 DoneOk == (phase = "done" /\ ~faultSeen /\ ~seenNone) => (tgt = acc /\ own = acc)
